@@ -24,7 +24,7 @@ Ltac hsimp :=
 (* The decision and the delivered headers, for every header set and secret list. *)
 Lemma ensure_internal_correct h pass secrets a uuid :
   uuid <> [] -> a <> [] -> (pass = true -> secrets <> []) ->
-  match ensure_internal h pass secrets (Some a) uuid with
+  match ensure_internal h pass secrets a uuid with
   | EiOk d => must_deny h pass secrets = false /\ delivered_ok h pass secrets d
   | Ei407 => must_deny h pass secrets = true
   | EiPanic => False
@@ -74,9 +74,18 @@ Proof.
   destruct pass.
   - destruct (nonempty (hget h hdr_secret)).
     + destruct (nonempty (hget h hdr_req_id)); destruct (nonempty (hget h hdr_orig_ip));
-        try destruct ip; inversion H; subst; rewrite ?hvalues_hset_other by assumption; reflexivity.
+        inversion H; subst; rewrite ?hvalues_hset_other by assumption; reflexivity.
     + destruct (nonempty (hget h hdr_req_id) || nonempty (hget h hdr_orig_ip)); [discriminate|].
-      destruct ip; [|discriminate]. destruct secrets; [discriminate|].
+      destruct secrets; [discriminate|].
       inversion H; subst. rewrite !hvalues_hset_other by assumption. reflexivity.
   - inversion H; subst. rewrite !hvalues_hdel_other by assumption. reflexivity.
+Qed.
+
+Lemma classic_fw k : is_fw_name k \/ ~ is_fw_name k.
+Proof.
+  unfold is_fw_name.
+  destruct (str_eq_dec (canon_key k) (canon_key hdr_secret)); [left; auto|].
+  destruct (str_eq_dec (canon_key k) (canon_key hdr_req_id)); [left; auto|].
+  destruct (str_eq_dec (canon_key k) (canon_key hdr_orig_ip)); [left; auto|].
+  right. tauto.
 Qed.
